@@ -44,7 +44,7 @@ type Case struct {
 	GoArgs string   `json:"go,omitempty"`      // UCI leg: arguments of the go command
 }
 
-var ttSizes = []int{32, 64, 3200, 32 * 1024, 1 << 20}
+var ttSizes = []int{32, 64, 3200, 128 * 1024, 1 << 20}
 
 // knownRec is the recorder used to classify occurrences of listed known findings.
 var knownRec *evid.Rec
@@ -141,7 +141,7 @@ func judge(c Case, ri *rootInfo, before board.VerifSnapshot, r srch.Result, comp
 	if !reflect.DeepEqual(before, after) {
 		return fmt.Errorf("%s: the board differs after the search (before %+v, after %+v)", what, before, after)
 	}
-	if r.Move != 0 && !ri.legal[uint16(r.Move)] {
+	if r.Move != 0 && !ri.legal[eng.Key(r.Move)] {
 		return fmt.Errorf("%s: returned move %v is not legal in %s", what, r.Move, ri.p.FEN())
 	}
 	if r.Move == 0 && !ri.final {
@@ -253,7 +253,7 @@ func run1(c Case, s *search.Search, rec *evid.Rec) error {
 	if c.SoftMs > 0 {
 		opts = append(opts, search.WithSoftTime(int64(c.SoftMs)))
 	}
-	quiet := c.TT < 32*1024
+	quiet := c.TT < 128*1024
 	stopped := false
 	var phCh chan time.Time
 	if c.Ponder != "" {
@@ -434,11 +434,28 @@ func uciCase(c Case, rec *evid.Rec) error {
 		}
 		return nil
 	}
+	wf := wellFormed(c.GoArgs)
 	ses.Send("go " + c.GoArgs)
 	line, ok := ses.Wait("bestmove", 150*time.Millisecond)
 	if !ok {
 		ses.Send("stop")
-		line, ok = ses.Wait("bestmove", 60*time.Second)
+		if wf {
+			line, ok = ses.Wait("bestmove", 60*time.Second)
+		} else if line, ok = ses.Wait("bestmove", 5*time.Second); !ok {
+			// arguments outside the protocol (text where a number belongs, a negative clock, unknown words): the
+			// driver may refuse the command and start no search - a running search would have answered the stop.
+			// The property is about searches; all that remains to ask is that the driver is alive and well.
+			alive := ses.Sync(30 * time.Second)
+			quitOK := ses.Quit(30 * time.Second)
+			if !alive || !quitOK {
+				return fmt.Errorf("driver not responsive after `go %s`", c.GoArgs)
+			}
+			if rec != nil {
+				rec.Eval(1)
+				rec.Class("uci_go_malformed_refused")
+			}
+			return nil
+		}
 	}
 	ses.Send("fen")
 	ok2 := ses.Sync(30 * time.Second)
@@ -464,7 +481,6 @@ func uciCase(c Case, rec *evid.Rec) error {
 	if m == nil {
 		return fmt.Errorf("malformed bestmove line %q", line)
 	}
-	wf := wellFormed(c.GoArgs)
 	if rec != nil {
 		rec.Eval(1)
 		rec.Class("uci_go")
@@ -670,16 +686,16 @@ func drawLimits(t *rapid.T, c *Case) {
 			c.Ponder = "queued"
 		} else {
 			c.Ponder = fmt.Sprintf("hit:%d", gen.Draw(t, 0, 3, "hitAfter"))
-			if c.TT < 32*1024 {
-				c.TT = 32 * 1024
+			if c.TT < 128*1024 {
+				c.TT = 128 * 1024
 			}
 			if c.Depth == 0 || c.Depth > 6 {
 				c.Depth = gen.Draw(t, 1, 6, "pdepth")
 			}
 		}
 	}
-	if strings.HasPrefix(c.Stop, "info:") && c.TT < 32*1024 {
-		c.TT = 32 * 1024 // info lines need a table of at least 1000 buckets (documented)
+	if strings.HasPrefix(c.Stop, "info:") && c.TT < 128*1024 {
+		c.TT = 128 * 1024 // info lines report HashFull, which needs a table of at least 1000 buckets (documented); 128 KiB leaves room for larger buckets
 	}
 }
 
